@@ -200,10 +200,10 @@ PROPS["C18"] = dict(
 
 PROPS["C05"] = dict(
     level="proof",
-    verus=["c05_optimizer", "c05_grouping", "c09_list_optimize", "c04_partition", "c02_regex", "c02_matchers"],
-    labels=["C05.", "C02.regex.", "C09.list_optimize.", "C02.match."] + MASK,
+    verus=["c05_optimizer", "c05_grouping", "c09_list_optimize", "c04_partition", "c02_regex", "c02_matchers", "c09_order"],
+    labels=["C05.", "C02.regex.", "C09.list_optimize.", "C02.match.", "C09.optimize."] + MASK,
     kani=[],
-    witness=["c05_equiv.rs"],
+    witness=["c05_equiv.rs", "c07_tags.rs"],
     trusted=["core::fmt: for a fixed format string the key is an injective function of the formatted arguments (R6 lift of format!)",
              "Iterator::any/all over a slice (vf_iter shim)", "raw_line join (debug text only)",
              "NetworkFilterList::optimize bucket rewrite: unit c09_list_optimize (drain / Arc::try_unwrap / collect lifted, R5/R6)",
